@@ -14,7 +14,7 @@ LEVEL = "exploration"
 EXHAUSTIVE = True
 RULE = (
     "exhaustive enumeration: every option flag word over the 11 defined bits + 2 undefined bits (2^13) x short name "
-    "{None,'s'} x default {None,'d',['d']}; every argument flag word over 8 defined + 3 undefined bits (2^11) x 3 defaults; "
+    "{None,'s'} x default {None,'d',['d']}; every argument flag word over 8 defined + 3 undefined bits (2^11) x 3 defaults; the same flag words x 7 defaults (incl. 0, '', False, []) through CommandConfig.add_option / add_argument, compared with the constructors; "
     "all strings of length 0..4 (quick) / 0..5 (thorough) over the name alphabet as long name, short name, argument name "
     "and alias, bare and dash-prefixed; conversion of boundary texts, objects and seeded random ints/floats by every "
     "declared type x nullable. non-trivial = flag word with >= 2 defined bits, a name of length >= 2, or a conversion "
@@ -255,6 +255,43 @@ def check_set_default_later(sh, obj, case, is_multi, accepts, label):
                 return
 
 
+def check_config_route(sh, Option, Argument, kind, flags, default):
+    """The fluent configuration methods (CommandConfig.add_option / add_argument) accept exactly what the constructors
+    accept and produce the same object (falsy defaults such as 0, '', False and [] included)."""
+    from clikit.api.config.command_config import CommandConfig
+
+    case = {"kind": "config-" + kind, "flags": flags, "default": default}
+    sh.case(("config", kind, flags, repr(default)), True)
+    if kind == "option":
+        direct, derr = build(Option, "opt", "o", flags, "d", list(default) if isinstance(default, list) else default)
+    else:
+        direct, derr = build(Argument, "arg", flags, "d", list(default) if isinstance(default, list) else default)
+    cfg = CommandConfig("cmd")
+    try:
+        if kind == "option":
+            cfg.add_option("opt", "o", flags, "d", list(default) if isinstance(default, list) else default)
+            via = cfg.options.get("opt")
+        else:
+            cfg.add_argument("arg", flags, "d", list(default) if isinstance(default, list) else default)
+            via = cfg.arguments.get("arg")
+        verr = None
+    except ValueError as e:
+        via, verr = None, e
+    except Exception as e:
+        sh.violate("config-route", case, "CommandConfig.add_%s raised %r" % (kind, e))
+        return
+    sh.count("config_route_calls")
+    if (direct is None) != (via is None):
+        sh.violate("config-route", case, "the constructor %s (%r) but CommandConfig.add_%s %s (%r)" % (
+            "raises" if direct is None else "accepts", derr, kind, "raises" if via is None else "accepts", verr))
+        return
+    if direct is not None:
+        a = (direct.flags, direct.default, type(direct.default).__name__)
+        b = (via.flags, via.default, type(via.default).__name__)
+        if a != b:
+            sh.violate("config-route", case, "constructor gives flags/default %r, CommandConfig.add_%s gives %r" % (a, kind, b))
+
+
 # ---- names -----------------------------------------------------------------
 def is_ascii_letter(c):
     return ("a" <= c <= "z") or ("A" <= c <= "Z")
@@ -455,6 +492,13 @@ def run(sh, spec):
         for flags in words(A_DEFINED + A_UNDEF):
             for default in (None, "d", ["d"]):
                 check_argument(sh, Argument, flags, default)
+        # the fluent configuration route, with falsy defaults too
+        for flags in words(O_DEFINED):
+            for default in (None, "d", ["d"], 0, "", False, []):
+                check_config_route(sh, Option, Argument, "option", flags, default)
+        for flags in words(A_DEFINED):
+            for default in (None, "d", ["d"], 0, "", False, []):
+                check_config_route(sh, Option, Argument, "argument", flags, default)
         # command options only carry the two preference bits
         for flags in words((PL, PS) + O_UNDEF):
             for short in (None, "s"):
